@@ -390,7 +390,7 @@ class ZipfRules:
 
     def search_bounds(self, op, rec, approx, tobj):
         ok_all = True
-        em = self.eng.elem_map(op)
+        em0 = self.eng.elem_map(op)
         for p in self.paths(op)[:4]:
             inits = {}
             for e in p.events:
@@ -404,6 +404,7 @@ class ZipfRules:
                 return False
             # values of the two cursors at declaration: store snapshot is final; use the init nodes
             b, en = vals[0], vals[1]
+            em = self.eng.elem_map(self.fx.functions[b['fn']]) if b.get('fn') in self.fx.functions else em0   # the helper the declaration lives in
             bi = self.expand(b.get('init_node') or {}, em)
             while bi.get('k') == 'cast':
                 bi = bi['e']
